@@ -23,6 +23,9 @@ CONSTANTS
   BugSkipInval = FALSE
   Dedicated = TRUE
   BugNoTrackingOff = TRUE
+  CacheChoices = {TRUE}
+  BugLossNilNeedsCache = FALSE
+  BugUnsubWrongSub = FALSE
 VIEW MCView
 INVARIANTS TypeOK TrackingOffOnRelease
 CHECK_DEADLOCK FALSE
